@@ -22,7 +22,7 @@ LINE_BITS = ["alpha", "beta gamma", "&amp; &lt; &#35;", "\\* \\` \\\\", "<b>html
              "> not quote", "- not list", "1. no", "***", "---", "===", "| a | b |", "é ß 日本", "\\", "$m$ ~~s~~", "<!-- c -->", "&", "``", "`", "~~", "~", "a\tb", "http://u.v",
              "[foo]: /u", "{note}", ".. x::", ":::",
              # characters str.splitlines() treats as line ends although Markdown does not (only LF, CR, CRLF end a line)
-             "x = 1;\x0cy = 2", "a\x0bb", "a\x1cb", "a\x1db", "a\x1eb", "a\x85b", "a\u2028b", "a\u2029b", "\x0c", "end\x85"]
+             "a\x00b", "\x00", "\x01\x7f", "\ufffd \ufeff", "x = 1;\x0cy = 2", "a\x0bb", "a\x1cb", "a\x1db", "a\x1eb", "a\x85b", "a\u2028b", "a\u2029b", "\x0c", "end\x85"]
 
 
 def body_lines(rng, c, n, allow_blank=True, allow_lead_tab=True):
@@ -281,6 +281,24 @@ def extra_cases(ctx, n):
             ctx.fail("exception", "conversion raised %r" % e, {"kind": "after-table", "container": "top", "doc": doc}); continue
         if len(found) != 1 or found[0]["raw"].rstrip("\n") != exp.rstrip("\n"):
             ctx.fail("after-table:differs", "code after a table is not reproduced verbatim: expected %r, got %r (document %r)" % (exp, [f["raw"] for f in found], doc), {"kind": "after-table", "container": "top", "doc": doc, "expected": exp})
+    # two fenced blocks with the same fence character: the first closed by a fence that is not literally its opener (longer, indented, trailing blanks),
+    # the second written plainly — each body ends at ITS first closing fence
+    ast0 = mistune.create_markdown(renderer=None)
+    for _ in range(n):
+        c = ctx.rng.choice("`~"); k = ctx.rng.randint(3, 4)
+        b1 = [l for l in body_lines(ctx.rng, c, k, allow_blank=True, allow_lead_tab=False) if not is_closer(l, c, k)] or ["one"]
+        b2 = [l for l in body_lines(ctx.rng, c, k, allow_blank=True, allow_lead_tab=False) if not is_closer(l, c, k)] or ["two"]
+        closer1 = ctx.rng.choice([c * (k + 1), " " + c * k, "  " + c * k, c * k + "  ", c * k + "\t", "   " + c * (k + 2) + " ", c * k])
+        mid = ctx.rng.choice(["\n", "\ntext between\n\n", "text\n", ""])
+        doc = c * k + ctx.rng.choice(["", "py"]) + "\n" + "".join(l + "\n" for l in b1) + closer1 + "\n" + mid + c * k + "\n" + "".join(l + "\n" for l in b2) + c * k + "\n\nafter\n"
+        cnt += 1
+        try:
+            found = [t["raw"] for t in codes(ast0(doc))]
+        except Exception as e:
+            ctx.fail("exception", "conversion raised %r" % e, {"kind": "two-fences", "container": "top", "doc": doc}); continue
+        exp = ["".join(l + "\n" for l in b1), "".join(l + "\n" for l in b2)]
+        if found != exp:
+            ctx.fail("two-fences:differs", "two fenced blocks are not reproduced verbatim: expected %r, got %r (document %r)" % (exp, found, doc), {"kind": "two-fences", "container": "top", "doc": doc, "expected": exp})
     tmp = tempfile.mkdtemp(prefix="verif-c11-")
     try:
         for style in ("rst", "fenced"):
